@@ -253,7 +253,7 @@ fn layout_valid(size: usize, align: usize) -> bool {
     align.is_power_of_two() && size <= (isize::MAX as usize) - (align - 1)
 }
 
-unsafe fn raw_alloc(size: usize, align: usize, guard: bool) -> Option<(usize, usize, usize, usize)> {
+unsafe fn raw_alloc(size: usize, align: usize, guard: bool) -> Option<(*mut u8, usize, usize, usize)> {
     // returns (ptr, base, total, base_align)
     if guard {
         let pad = if align > GUARD { align } else { GUARD.div_ceil(align) * align };
@@ -266,13 +266,13 @@ unsafe fn raw_alloc(size: usize, align: usize, guard: bool) -> Option<(usize, us
         std::ptr::write_bytes(base, GUARD_BYTE, pad);
         std::ptr::write_bytes(base.add(pad), POISON_FRESH, size);
         std::ptr::write_bytes(base.add(pad + size), GUARD_BYTE, GUARD);
-        Some((base as usize + pad, base as usize, total, base_align))
+        Some((base.add(pad), base as usize, total, base_align))
     } else {
         let p = System.alloc(Layout::from_size_align(size, align).ok()?);
         if p.is_null() {
             return None;
         }
-        Some((p as usize, p as usize, size, align))
+        Some((p, p as usize, size, align))
     }
 }
 
@@ -320,9 +320,10 @@ impl MonAlloc {
         }
         let guard = mode == MODE_GUARD;
         let align_eff = if align.is_power_of_two() && align <= (1 << 20) { align } else { 16 };
-        let Some((ptr, base, total, base_align)) = raw_alloc(size, align_eff, guard) else {
+        let Some((real_ptr, base, total, base_align)) = raw_alloc(size, align_eff, guard) else {
             return std::ptr::null_mut();
         };
+        let ptr = real_ptr as usize;
         t.stats.serial += 1;
         let serial = t.stats.serial;
         // the *requested* layout is what later realloc/dealloc must present
@@ -341,7 +342,7 @@ impl MonAlloc {
         }
         t.event(Event { kind: if is_realloc { b'r' } else { b'a' }, ptr, size: layout.size(), align, aux: serial as usize, aux2: 0 });
         T_ALLOCS.with(|c| c.set(c.get() + 1));
-        ptr as *mut u8
+        real_ptr
     }
 
     /// Retire an attributed block. Returns true when the pointer was one of ours.
@@ -400,7 +401,12 @@ impl MonAlloc {
         } else {
             t.slots[i].st = St::Tomb;
             t.tombs += 1;
-            System.dealloc(s.base as *mut u8, Layout::from_size_align_unchecked(s.total, s.base_align));
+            if s.base == s.ptr {
+                // unguarded block: release through the caller's own pointer (keeps its provenance)
+                System.dealloc(ptr, Layout::from_size_align_unchecked(s.total, s.base_align));
+            } else {
+                System.dealloc(s.base as *mut u8, Layout::from_size_align_unchecked(s.total, s.base_align));
+            }
         }
         true
     }
@@ -467,32 +473,36 @@ pub fn stats() -> Stats {
     unsafe { table(&g).stats }
 }
 
-/// Drain queued events (allocates only after the lock is released).
+/// Drain queued events.
 pub fn drain_events() -> (Vec<Event>, u64) {
-    let mut buf = [Event { kind: 0, ptr: 0, size: 0, align: 0, aux: 0, aux2: 0 }; EVQ];
-    let (n, lost) = {
+    user_enter();
+    let r = {
         let g = lock();
         let t = unsafe { table(&g) };
         let n = t.ev_n;
-        buf[..n].copy_from_slice(&t.ev[..n]);
-        t.ev_n = 0;
         let l = t.ev_lost;
         t.ev_lost = 0;
-        (n, l)
+        t.ev_n = 0;
+        if n == 0 {
+            (Vec::new(), l)
+        } else {
+            // allocating while holding the lock is fine: a non-attributed allocation never takes it
+            (t.ev[..n].to_vec(), l)
+        }
     };
-    (buf[..n].to_vec(), lost)
+    user_exit();
+    r
 }
 
 /// Is `ptr..ptr+bytes` inside a live attributed block aligned to `align`?
+/// (A vector's storage starts at the start of its allocation, so this is a table lookup.)
 pub fn covers(ptr: usize, bytes: usize, align: usize) -> Option<(usize, usize)> {
     let g = lock();
     let t = unsafe { table(&g) };
-    for s in t.slots.iter() {
-        if s.st == St::Live && ptr >= s.ptr && ptr + bytes <= s.ptr + s.size.min(s.req_size) {
-            if s.ptr % align == 0 {
-                return Some((s.size, s.align));
-            }
-        }
+    let i = t.find(ptr)?;
+    let s = t.slots[i];
+    if s.st == St::Live && bytes <= s.size.min(s.req_size) && s.ptr % align == 0 {
+        return Some((s.size, s.align));
     }
     None
 }
@@ -542,6 +552,9 @@ pub fn scan() -> u64 {
 pub fn flush_quarantine() {
     let g = lock();
     let t = unsafe { table(&g) };
+    if t.stats.quarantined == 0 && (t.stats.live != 0 || t.tombs == 0) {
+        return;
+    }
     for j in 0..NSLOTS {
         let s = t.slots[j];
         if s.st == St::Quarantined {
